@@ -570,8 +570,28 @@ def has_nonfinite(hexvals):
 
 
 # ---- Gallina encoders
+def gq(x):
+    """rational as a Gallina Q term; dyadic rationals (every float) as fq mantissa exponent, which
+    keeps the literals short (Coq parses long decimal literals in quadratic time)"""
+    f = F(x)
+    n, d = f.numerator, f.denominator
+    if n == 0:
+        return "0"
+    if d & (d - 1) == 0:
+        e = -(d.bit_length() - 1)
+        if d == 1:
+            tz = (n & -n).bit_length() - 1
+            n >>= tz
+            e = tz
+        if -64 <= e <= 64 and abs(n) < 2 ** 60 and e <= 0:
+            return g.q(f)
+        ns = hex(n) if n >= 0 else "(" + hex(n) + ")"
+        return f"(fq {ns} ({e}))"
+    return g.q(f)
+
+
 def g_q_hex(h, inf_ok=False):
-    return g.q(qv(unhex(h), inf_ok))
+    return gq(qv(unhex(h), inf_ok))
 
 
 def g_qlist_hex(hs, inf_ok=False):
@@ -609,17 +629,17 @@ def g_fobs(o, inf_ok=False):
 def g_file(a, inf_ok=False):
     """abstract file (dict of the independent reader, floats) -> Gallina"""
     def ql(xs):
-        return g.lst([g.q(F(x)) for x in xs])
+        return g.lst([gq(F(x)) for x in xs])
     chk = a["check"]
     if chk is None or math.isnan(chk) or math.isinf(chk):
         gchk = "None"
     else:
-        gchk = f"(Some {g.q(F(chk))})"
+        gchk = f"(Some {gq(F(chk))})"
     return (f"(mkFile {g.b(a['v2'])} {g.s(a['meshunit'] or '')} {ql(a['base'] or [])} {g.zl(a['nodes'])} "
             f"{ql(a['step'])} {ql(a['min'])} {ql(a['max'])} "
             f"{'None' if a['valuedim'] is None else '(Some ' + g.z(a['valuedim']) + ')'} "
             f"{g_optstrs(a['labels'])} {g_optstrs(a['units'])} {g_rep(a['rep'])} {gchk} "
-            f"{g.lst([g.q(qv(x, inf_ok)) for x in a['payload']])} {g.b(a['tail_ok'])})")
+            f"{g.lst([gq(qv(x, inf_ok)) for x in a['payload']])} {g.b(a['tail_ok'])})")
 
 
 def strings_ok(*xs):
